@@ -631,9 +631,8 @@ def _exc_name(e):
         return "DuplicationError"
     if isinstance(e, RecursionError):
         return "RecursionError"
-    if type(e).__name__ == "CreatorFails" or (
-            type(e).__name__ == "ValueError" and "not found among available inputs" in str(e)):
-        # raised by the constructor's own set-up, after Lexical.__init__ went through
+    if type(e).__name__ == "CreatorFails":
+        # raised by the graph creator of the harness' own macro classes, after Lexical.__init__ went through
         return "SetupError"
     for n in ("KeyError", "AttributeError", "ValueError", "TypeError"):
         if type(e).__name__ == n:
@@ -657,8 +656,9 @@ def _snapshot(objs, world):
             chain_ok = False
         nodes.append([i, o.label, None if par is None else index.get(id(par), "?"), chain_ok])
         if isinstance(o, Composite):
-            ch = [[k, index.get(id(v), "?")] for k, v in o.children.items()]
-            st = [index.get(id(v), "?") for v in o.starting_nodes]
+            # the statement fixes neither the order of the children nor that of the starting nodes
+            ch = sorted(([k, index.get(id(v), "?")] for k, v in o.children.items()), key=lambda e: (str(e[1]).zfill(6), e[0]))
+            st = sorted((index.get(id(v), "?") for v in o.starting_nodes), key=lambda x: str(x).zfill(6))
             clash = [k for k in o.children if hasattr(type(o), k) or k in vars(o)]
             comps.append([i, ch, st, clash])
     return {"nodes": nodes, "comps": comps}
@@ -755,7 +755,11 @@ def _run_scenario(case):
                 host.m.executor = None
             else:
                 other = pickle.loads(pickle.dumps(host.m))
-                host.m._parse_remotely_executed_self(other)
+                merge = getattr(type(host.m), "_parse_remotely_executed_self", None)
+                if merge is None:  # a private name: the real-executor variant covers the path
+                    return {"obs": [], "states": [], "scenario": [], "changed": 3, "stats": {},
+                            "variant": _variant(), "reserved": _reserved()}
+                merge(host.m, other)
             tracked.extend(everything(wf))
             stage("merged", [wf])
         elif name == "for-rerun":
@@ -791,7 +795,7 @@ def _run_scenario(case):
             a.running = False
             stage(how, [wf, w2])
     except Exception as e:  # noqa: BLE001
-        stages.append({"stage": "raised", "bad": [], "raised": f"{type(e).__name__}: {str(e)[:200]}"})
+        stages.append({"stage": "raised", "bad": [], "raised": type(e).__name__})
     return {"obs": [], "states": [], "scenario": stages, "changed": 3,
             "stats": {f"scenario:{name}": 1}, "variant": _variant(), "reserved": _reserved()}
 
@@ -815,6 +819,9 @@ def run_impl(case):
         kind = op[0]
         res = "ok"
         extra = {}
+        # a ValueError of this operation can only come from the constructor's own set-up (keywords naming no input
+        # channel): decided from the operation's inputs and the state before it, never from the message
+        setup_stage = False
         try:
             if kind == "raw":
                 res = "bad-op"
@@ -902,6 +909,8 @@ def run_impl(case):
                     from . import nodes_c13
 
                     known = {id(v) for v in objs.values()}
+                    # Lexical.__init__ raises ValueError only for a label with the delimiter or a non-composite parent
+                    setup_stage = "/" not in label and (p is None or comp(p))
                     try:
                         if world[c]["kind"] == "leaf":
                             _classes()["leaf"](label=label, parent=None if p is None else objs[p], bogus=1)
@@ -924,6 +933,9 @@ def run_impl(case):
                     res = "skip"
                 else:
                     known = {id(v) for v in objs.values()}
+                    # the adoption loop raises ValueError only for a node that somebody else owns; it runs first
+                    setup_stage = bool(fails) and "/" not in label and all(
+                        getattr(objs[k], "parent", None) is None for k in kids)
                     kw = {"bogus": 1} if fails else {}
                     try:
                         o = _classes()["wf"](label, *[objs[k] for k in kids], autoload=None,
@@ -981,6 +993,8 @@ def run_impl(case):
             res = _exc_name(e)
         except Exception as e:  # noqa: BLE001
             res = _exc_name(e)
+            if setup_stage and res == "ValueError":
+                res = "SetupError"
         snap = _snapshot(objs, world)
         if kind in ("reload", "pickle") and res not in ("ok", "skip") and snap == prev:
             # storage refused (e.g. a non-child that the user put among the starting nodes cannot be saved): not an
